@@ -16,8 +16,13 @@
 --                            `VerifyFrontNeverFails` (no `airnew` either) is therefore false for the pinned tree:
 --                            `verifyFrontNeverFails_false`.
 --   * regression witnesses: the inputs that made the pinned tree panic / abort now end in `err` / `eof`.
--- Not modelled (covered by the fuzz correspondence of harness/src/bin/c06.rs only): the rest of `verify()` after
--- the channel has been built, the element conversions of the public-coin seed, and the AIR's own callbacks.
+-- Not modelled HERE: the rest of `verify()` after the channel has been built, the element conversions of the
+-- public-coin seed, and the AIR's own callbacks; in general they are covered by the fuzz correspondence of
+-- harness/src/bin/c06.rs only.  For ONE instantiation (64-bit field, Rp64_256, no auxiliary segment) the gap is closed
+-- by the reference verifier: `WinterProofs.RefVerifier.refVerify_never_panics` (WinterProofs/RefVerifierTotal.lean,
+-- on top of `parseProof_safe` / `verifyFront_safe_partial` of this file) proves for the WHOLE of `verify` that the
+-- only panics on untrusted bytes are `AIR::new` and the AIR's callbacks in `evaluate_constraints` (finding
+-- c06.verify.air-new).  It cannot be re-exported from this file: WinterProofs/RefVerifier.lean imports this file.
 import WinterProofs.Lemmas.C06Front
 import WinterProofs.Lemmas.C06Data
 
